@@ -54,6 +54,17 @@ check("C12", "digest-sim", "exploration",
       "Computations are issued one at a time (no overlapping computations on one JSON cache); tmpfs only; files <= 64 KiB.",
       "DESIGN.md section 4 C12, sim-digest/REPORT.md")
 
+check("C03", "certchain-sim", "exploration",
+      "deterministic simulation of a client verifying against a faulty / Byzantine certificate provider across successive verifications (cache state persists): seeded histories of provider lies (altered, re-hashed, re-linked, re-signed, wrong, stale, looping answers); independent chain-validity oracle written from the statement",
+      "Seeded histories of 1-6 verify_chain calls on one persistent client (verifier cache on in half of the runs) and on the common verifier, against a provider that lies per request (25 edit classes, adversary signer sets and genesis key, forks re-linking every descendant); every accepted certificate is judged by an independent definition of 'chained to the configured genesis key'; honest chains must verify.",
+      "Multi-signature validity is judged with STM verify (C01's subject); cache expiry (wall clock) is not exercised; concatenation proofs only.",
+      "DESIGN.md section 4 C03, sim-certchain/REPORT.md")
+check("C05", "wire-sim", "fault_enumeration",
+      "fault injection on the channel the bytes arrive on: honest encodings of every wire type damaged by enumerated transport / storage faults (all bit flips in headers and length fields, all truncation points, block zero/ones-fill, splices, misdirected deliveries) into every public decoder, under panic / allocation / loop / round-trip monitors in forked children",
+      "For 126 honest encodings per run (CBOR-v1, legacy, hex, JSON-hex, JSON, bincode, DMQ frame) the complete single-fault enumeration of one primary encoding plus seeded multi-fault cases is fed to 20 decode entry points; no panic, abort, overflow, unbounded loop or allocation out of proportion; fault-free decode(encode(v)) == v. Scoped claim: only inputs derived from honest encodings by channel faults - arbitrary bytes, grammar-based generation and coverage-guided fuzzing are not claimed.",
+      "Overflow checks are on (profile sim); the fault model includes an erased (0xff) block; allocation ceiling 64 x input + 1 MiB.",
+      "DESIGN.md section 4 C05, sim-wire/REPORT.md")
+
 def manifest():
     checks = []
     for pid in sorted(CHECKS):
